@@ -81,7 +81,27 @@ func (fs *FileSystem) Store(bom *sbom.Document, opts *StoreOptions) error {
 		return fmt.Errorf("there is already an entry for the specified document (and NoClobber = true)")
 	}
 
-	if err := os.WriteFile(filepath.Join(fs.Options.Path, filename), out, os.FileMode(0o644)); err != nil {
+	// Write to a temporary file in the same directory and rename it over the
+	// entry, so that a crash never leaves a truncated or partially written entry.
+	tmp, err := os.CreateTemp(fs.Options.Path, filename+".tmp-*")
+	if err != nil {
+		return fmt.Errorf("writing data to disk: %w", err)
+	}
+	_, err = tmp.Write(out)
+	if err == nil {
+		err = tmp.Chmod(os.FileMode(0o644))
+	}
+	if err == nil {
+		err = tmp.Sync()
+	}
+	if cerr := tmp.Close(); err == nil {
+		err = cerr
+	}
+	if err == nil {
+		err = os.Rename(tmp.Name(), filepath.Join(fs.Options.Path, filename))
+	}
+	if err != nil {
+		os.Remove(tmp.Name()) //nolint:errcheck // best effort cleanup
 		return fmt.Errorf("writing data to disk: %w", err)
 	}
 
